@@ -2821,6 +2821,7 @@ func (db *DB) SnapshotReader(ctx context.Context) (ltx.Pos, io.ReadCloser, error
 		return ltx.Pos{}, nil, err
 	}
 
+	verifhook.Yield("snapshot:position_captured")
 	r, err := db.snapshotReader(ctx, pos)
 	if err != nil {
 		pos.close()
